@@ -275,6 +275,7 @@ fn fault_free_plan(rng: &mut Rng, w: &Workload, max_events: usize, unknown: bool
     gen::gen_workload(rng, &mut plan, &mut ids, w);
     plan.net = gen::gen_net(rng);
     gen::gen_changes(rng, &mut plan, max_events, unknown, max_names);
+    gen::tame_net_for_big_plans(&mut plan);
     if rng.chance(1, 3) {
         gen::retarget_changes(rng, &mut plan);
     }
@@ -391,8 +392,27 @@ fn gen_c04(rng: &mut Rng) -> Plan {
             names: gen::gen_names(rng, true, 3),
         });
     }
+    gen::tame_net_for_big_plans(&mut plan);
     if rng.chance(1, 2) {
         gen::retarget_changes(rng, &mut plan);
+    }
+    // rarely: a flood of notifications while the application is not polling its receiver
+    if rng.chance(1, 200) {
+        let n = *rng.pick(&[1025usize, 1100, 2050]);
+        let start = rng.below(50);
+        plan.changes = (0..n)
+            .map(|i| ChangeEvent {
+                at_ms: start + i as u64,
+                names: vec![crate::session::mpd::SUBSYSTEMS[i % 14].to_string()],
+            })
+            .collect();
+        plan.net.s2c_mode = SegMode::Whole;
+        plan.net.s2c_delay_ms = vec![0];
+        plan.net.s2c_latency_ms = 0;
+        plan.net.c2s_latency_ms = vec![0];
+        plan.net.write_pending = vec![0];
+        plan.net.write_chunk = vec![usize::MAX];
+        plan.consumer = Consumer::StartAt(start + n as u64 + 500);
     }
     plan
 }
@@ -497,6 +517,7 @@ impl Check for C05 {
         if rng.chance(1, 10) {
             plan.consumer = Consumer::DropAt(rng.below(300));
         }
+        gen::tame_net_for_big_plans(&mut plan);
         ctx.about_to_eval(&plan);
         let (ev, out) = eval_with(&plan, oracle::check_c05, nt_c05);
         bump_probes(ctx, &plan, &out);
@@ -547,6 +568,7 @@ pub fn sweep_bases() -> Vec<Plan> {
         fail,
         delay_ms,
         partial_fields: if fail.is_some() { 1 } else { 0 },
+        distinct_keys: false,
     };
     let scripts: Vec<(Vec<Vec<Op>>, Vec<ChangeEvent>, Vec<(u64, ReplyShape)>, bool)> = vec![
         (vec![vec![Op::Request { id: 1 }]], vec![], vec![(1, shape(0, 0, None, None, 0))], true),
@@ -664,6 +686,7 @@ pub fn sweep_bases() -> Vec<Plan> {
                     later_error: None,
                     chunk_caps: Vec::new(),
                     header_before_error: false,
+                    mime_only_first_chunk: false,
                 }];
                 bases.push(p);
             }
@@ -685,6 +708,10 @@ impl C08 {
             });
             faults.push(Fault {
                 kind: FaultKind::ReadErr("ConnectionReset".into()),
+                trigger: Trigger::AtS2cOffset(off),
+            });
+            faults.push(Fault {
+                kind: FaultKind::ReadErr("UnexpectedEof".into()),
                 trigger: Trigger::AtS2cOffset(off),
             });
         }
@@ -724,6 +751,7 @@ fn gen_c08(rng: &mut Rng) -> Plan {
     let mut ids = Ids(0);
     gen::gen_workload(rng, &mut plan, &mut ids, &w);
     plan.net = gen::gen_net(rng);
+    gen::tame_net_for_big_plans(&mut plan);
     gen::gen_changes(rng, &mut plan, 3, false, 2);
     if rng.chance(1, 8) {
         plan.consumer = Consumer::DropAt(rng.below(200));
@@ -867,6 +895,35 @@ fn gen_c17(rng: &mut Rng) -> Plan {
     if rng.chance(1, 2) {
         gen::gen_changes(rng, &mut plan, 4, false, 2);
     }
+    // rarely: megabyte chunks and a picture beyond the sizes someone might cap at (1 MiB, 16 MiB)
+    if rng.chance(1, 400) {
+        let (limit, size) = *rng.pick(&[
+            (1_500_000usize, 2_200_000usize),
+            (4 << 20, 5_000_000),
+            (8 << 20, 17_000_001),
+        ]);
+        plan.binary_limit = limit;
+        plan.net = NetPolicy::default();
+        let uri = "art/giant.flac".to_string();
+        let data: Vec<u8> = (0..size).map(|i| (i as u32).wrapping_mul(2654435761).to_le_bytes()[3]).collect();
+        plan.pictures.push(Picture {
+            uri: uri.clone(),
+            embedded: if rng.chance(1, 2) {
+                Some(Embedded { data: data.clone(), mime: Some("image/png".into()) })
+            } else {
+                None
+            },
+            cover: Cover::Bytes(data),
+            readpicture_unknown: false,
+            readpicture_error: None,
+            albumart_error: None,
+            later_error: None,
+            chunk_caps: Vec::new(),
+            header_before_error: false,
+            mime_only_first_chunk: false,
+        });
+        plan.callers.push(vec![Op::AlbumArt { uri }]);
+    }
     plan
 }
 
@@ -986,7 +1043,13 @@ fn gen_c18b(rng: &mut Rng) -> Plan {
     if with_pw {
         let alphabet = b"abcdefghijklmnopqrstuvwxyzABCDEFGHIJKLMNOPQRSTUVWXYZ0123456789-_.:/+=";
         let len = rng.urange(1, 24);
-        let password: String = (0..len).map(|_| *rng.pick(alphabet) as char).collect();
+        let mut password: String = (0..len).map(|_| *rng.pick(alphabet) as char).collect();
+        // blanks inside the password: sent quoted, must come out of the server's tokenizer
+        // verbatim (quotes and backslashes are left out: their escaping is property C06's matter)
+        if len >= 3 && rng.chance(1, 3) {
+            let at = rng.urange(1, len - 2);
+            password.replace_range(at..at + 1, if rng.chance(1, 4) { "\t" } else { " " });
+        }
         let verdict = match rng.below(8) {
             0..=2 => PwVerdict::Accept,
             3 | 4 => PwVerdict::Reject(*rng.pick(&[3u64, 3, 4, 2, 5, 50, 0])),
